@@ -347,6 +347,7 @@ def run(ctx, rep_):
     void_is_not_an_element(F, rep_)
     self_type_is_its_class(F, rep_)
     class_types_compare_their_members(F, rep_)
+    map_lookup_admits_absence(F, rep_)
     open_coercion_compares_with_the_result(F, rep_)
     strings_have_no_slots(F, rep_)
     only_methods_get_the_object(F, rep_)
@@ -909,6 +910,31 @@ def class_types_compare_their_members(F, rep, rule="C02.class-identity"):
            ("not compared: %s.  `class Point { x: int .. }` and a `class Point { label: str .. }` declared in a function body of the same file are one type: "
             "`fn() -> Point { class Point {..} return Point() }` is accepted and `.x` fails in `lookup` at run time" % missing) if missing else
            "fields compared: %s" % sorted(compared), g.span, fn=g.path, key=rule)
+
+
+def map_lookup_admits_absence(F, rep, rule="C02.map-lookup"):
+    """`m[k]` on a map answers nil when k is not bound (GcMap::get: `unwrap_or(Optional(None))`), so the static type of the expression has to admit
+    nil - or the lookup has to fail.  Read from both sides: the Map arm of TypeLayout::get_output_type_from_index (what it hands back: the value type as
+    it is, or wrapped in an optional) and GcMap::get (whether a missing key is an Ok answer)."""
+    si = F.fn("compiler::ast::r#type::TypeLayout::get_output_type_from_index")
+    gg = F.fn("bytecode::variables::primitive::GcMap::get")
+    if si is None or gg is None:
+        raise AnchorMissing("TypeLayout::get_output_type_from_index / GcMap::get")
+    vt = si.calls_to("compiler::ast::map::MapType::value_type")
+    if not vt:
+        raise AnchorMissing("MapType::value_type in get_output_type_from_index")
+    # is the value type handed back as it is?  (an Ok return is reached from the call, and no TypeLayout::Optional is built on the way)
+    okr = set(rules.ok_return_blocks(si))
+    plain = bool(vt[0].target is not None and si.reachable(vt[0].target) & okr)
+    wraps_opt = any("agg" in rv and rv["agg"].get("adt", "").endswith("TypeLayout") and rv["agg"].get("v") == "Optional" and bi in si.reachable(vt[0].bb)
+                    for bi, si_, dst, rv, st in si.assigns())
+    nil_ok = bool(gg.calls_to(("core::option::Option::unwrap_or", "core::option::Option::unwrap_or_else", "core::option::Option::unwrap_or_default"))) and \
+        any("agg" in rv and rv["agg"].get("v") == "Optional" for bi, si_, dst, rv, st in gg.assigns())
+    bad = plain and not wraps_opt and nil_ok
+    rep.ob(rule, "the static type of a map lookup admits the answer for a missing key", "violated" if bad else "ok",
+           ("get_output_type_from_index types `m[k]` as the map's value type V as it is, and GcMap::get answers nil for a key that is not bound: "
+            "`m = map[str, int]{\"a\": 1}` / `v: int = m[\"zzz\"]` binds nil to an int name (`typeof v` is int, `v == nil` is true, `v + 1` fails at run time)") if bad else
+           "value type handed back as it is=%s, wrapped in an optional=%s, a missing key is an Ok nil=%s" % (plain, wraps_opt, nil_ok), vt[0].span, fn=si.path, key=rule)
 
 
 def self_type_is_its_class(F, rep, rule="C02.self-type"):
